@@ -20,7 +20,7 @@ def value_table(C):
     return {
         'Plain': {'i': ints, 'f': floats, 's': strs, 'by': [b'', b'a', b'\x00\xff\'"'], 'b': [True, False], 'v': generic, 'l': lists,
                   't': tuples2, 'd': [{}, {'a': 1}, {'a': (1,), 'b': [1, 2]}, {'é': None}],
-                  'dd': [{}, {'a': 1}, {'a': 1, 'b': 2, 'c': 3}, {'b': 2, 'a': 1}, {'a': 1, 'b': 3}], 'ld': [[{'a': 1}, 3], [{'a': 1, 'b': 2}], [], [{'a': 1, 'b': 2}, 3]],
+                  'dd': [{}, {'a': 1}, {'a': 1, 'b': 2, 'c': 3}, {'b': 2, 'a': 1}, {'a': 1, 'b': 3}, {'a': 1, 'c': 2}], 'ld': [[{'a': 1}, 3], [{'a': 1, 'b': 2}], [], [{'a': 1, 'b': 2}, 3]],
                   'child': ['LEAF0', 'LEAF1', 'LEAF2', 'LEAF3'],
                   'name': ['explicit', 'Plain99', "we'ird", 'Plain3_x', 'Plain2D', 'xPlain12', '12', 'Plain00012 ', 'plain7', 'Plain12\n']},
         'Positional': {'i': ints, 's': strs[:5], 'v': generic, 'f': floats[:5], 'name': ['explicit']},
